@@ -53,7 +53,7 @@ impl Board {
     pub fn get_all_moves(&self) -> (r: Vec<Ply>)
         requires bwf(*self),
         ensures forall|i: int| 0 <= i < r@.len() ==> pseudo(self.pos@, #[trigger] r@[i]),
-                r@.len() <= 256,   // assumed: a position has at most 218 pseudo-legal moves
+                r@.len() <= 17408, // legal unit: lemma_all_moves_len
                 r@ == moves_of(self.pos@),   // [C11] the generated list is a function of the position (legal unit: all_moves)
     { unimplemented!() }
 
@@ -62,7 +62,7 @@ impl Board {
     pub fn get_capture_moves(&self) -> (r: Vec<Ply>)
         requires bwf(*self),
         ensures forall|i: int| 0 <= i < r@.len() ==> pseudo(self.pos@, #[trigger] r@[i]),
-                r@.len() <= 256,
+                r@.len() <= 17408,
                 r@ == caps_of(self.pos@),    // [C11] likewise its capture sub-list
     { unimplemented!() }
 
